@@ -115,11 +115,35 @@ def _finalizer_placement(ctx, out, rng):
     from vakt.policy import Policy
     from vakt.guard import Inquiry
     from vakt.checker import RegexChecker
+    import sys
     old_thr = gc.get_threshold()
-    ts = list(range(1, 40)) + list(range(40, 700, 7)) if ctx.tier == 'thorough' else sorted(rng.sample(range(1, 500), 45))
+    thr = list(range(1, 40)) + list(range(40, 700, 7)) if ctx.tier == 'thorough' else sorted(rng.sample(range(1, 500), 12))
+    # the second way of choosing the moment is exact: the collection is forced at the k-th function call made inside the
+    # mutation (sys.setprofile counts Python and C calls); k is spread evenly, with jitter, over the calls of a dry run
+    nprof = 400 if ctx.tier == 'thorough' else 60
+    ts = [('thr', t) for t in thr] + [('prof', (i + rng.random()) / nprof) for i in range(nprof)]
     d = tempfile.mkdtemp(prefix='vakt-c15-gc-')
+    calls_of = {}
+
+    def run_counted(fn, at):
+        """run fn() counting call events; at the `at`-th one collect garbage once; returns the number of events"""
+        n = [0]
+
+        def prof(frame, event, arg):
+            if event in ('call', 'c_call'):
+                n[0] += 1
+                if n[0] == at:
+                    sys.setprofile(None)
+                    gc.collect()
+                    sys.setprofile(prof)
+        sys.setprofile(prof)
+        try:
+            fn()
+        finally:
+            sys.setprofile(None)
+        return n[0]
     try:
-        for n, t in enumerate(ts):
+        for n, (how, t) in enumerate(ts):
             path = os.path.join(d, 'db%d.sqlite' % n)
             w = open_storage(path)
             keys = {}
@@ -132,6 +156,15 @@ def _finalizer_placement(ctx, out, rng):
             w.add(old)
             w.add(other)
             op = pick(rng, ['update', 'update', 'add', 'delete'])
+            if how == 'prof' and op not in calls_of:
+                # dry run on a throw-away database: how many calls does this mutation make?
+                w0 = open_storage(os.path.join(d, 'dry%d.sqlite' % n))
+                w0.add(old), w0.add(other)
+                a0 = {'update': new, 'add': Policy('n', actions=['a'], subjects=['b'], resources=['c'], description='n'),
+                      'delete': 'v'}[op]
+                calls_of[op] = run_counted(lambda: getattr(w0, op)(a0), -1)
+                w0.session.remove()
+                w0._engine.dispose()
             arg = {'update': new, 'add': Policy('n', actions=['a'], subjects=['b'], resources=['c'], description='n'),
                    'delete': 'v'}[op]
             want = {'update': [new, other], 'add': [old, other, arg], 'delete': [old]}[op]
@@ -146,10 +179,13 @@ def _finalizer_placement(ctx, out, rng):
                 cyc = [it]
                 cyc.append(cyc)                   # ... and abandoned inside a reference cycle
                 del it, cyc
-                gc.set_threshold(t, 10 ** 6, 10 ** 6)
-                gc.enable()
                 try:
-                    getattr(w, op)(arg)
+                    if how == 'thr':
+                        gc.set_threshold(t, 10 ** 6, 10 ** 6)
+                        gc.enable()
+                        getattr(w, op)(arg)
+                    else:
+                        run_counted(lambda: getattr(w, op)(arg), max(1, int(t * calls_of[op])))
                     outcome = 'returned'
                 except Exception as e:
                     outcome = 'raised %s' % type(e).__name__
@@ -161,8 +197,10 @@ def _finalizer_placement(ctx, out, rng):
             out.evaluations += 1
             out.count('gc-placement:%s:%s' % (op, outcome.split(' ')[0]))
             if outcome == 'returned' and seen != wanted:
-                f = Failure('oracle', {'scenario': 'a half-consumed %s listing is finalised by the garbage collector %d container '
-                                       'allocations into %s()' % (kind, t, op), 'outcome': outcome,
+                f = Failure('oracle', {'scenario': 'a half-consumed %s listing is finalised by the garbage collector %s into %s()'
+                                       % (kind, ('%d container allocations' % t) if how == 'thr' else
+                                          ('at call %d of about %d' % (max(1, int(t * calls_of[op])), calls_of[op])), op),
+                                       'outcome': outcome,
                                        'another_session_sees': seen, 'expected': wanted}, seen, None,
                             '%s() returned normally but another session sees neither the old nor the new state of the policy'
                             % op, 'Vakt.C15.op_committed_and_clean')
